@@ -326,7 +326,7 @@ Definition signer_step (a : wsigner) (f : field) : option wsigner :=
   | _ => Some a
   end.
 Definition is_nil (b : bytes) : bool := match b with [] => true | _ => false end.
-(* ToProto (serialization.go:62-83, 354-376, after the repair c84fe2d): without a public key the signer
+(* ToProto (serialization.go:62-83, 354-376, after the repair fc1d21b): without a public key the signer
    is written with its address only *)
 Definition signer_to_pb (s : wsigner) : wsigner :=
   if is_nil (sg_pk s) then {| sg_addr := sg_addr s; sg_pk := [] |} else s.
@@ -334,7 +334,7 @@ Definition signer_to_pb (s : wsigner) : wsigner :=
 Section WithPubKeys.
 Variable pk_canon : bytes -> option bytes.
 
-(* FromProto (serialization.go:103-116, 394-407, after the repair c84fe2d): an address without a key is kept *)
+(* FromProto (serialization.go:103-116, 394-407, after the repair fc1d21b): an address without a key is kept *)
 Definition signer_from_pb (o : option wsigner) : option wsigner :=
   match o with
   | None => Some signer0
